@@ -15,6 +15,7 @@ import (
 	"github.com/mdlayher/corerad/internal/config"
 	"github.com/mdlayher/corerad/internal/plugin"
 	"github.com/mdlayher/corerad/internal/system"
+	"github.com/mdlayher/ndp"
 	"verif.local/model"
 )
 
@@ -148,8 +149,8 @@ func vInject(ifi *config.Interface, sys *model.Sys, now func() time.Time) {
 			return nil, errInjected
 		}
 		out := make([]system.Route, 0, len(sys.Routes))
-		for _, r := range sys.Routes {
-			out = append(out, system.Route{Prefix: r, Index: 1})
+		for i, r := range sys.Routes {
+			out = append(out, system.Route{Prefix: r, Index: 1 + i%2*6, Preference: []ndp.Preference{ndp.Medium, ndp.Low, ndp.High}[i%3]})
 		}
 		return out, nil
 	}
